@@ -164,7 +164,12 @@ def gen_laws(rng, n):
         ts = [] if rng.random() < 0.6 else N.bcast_partner(rng, shape)
         if not N.broadcastable(shape, ts) or list(np.broadcast_shapes(tuple(shape), tuple(ts))) != list(shape):
             ts = []
-        yield {"op": "laws", "kind": kind, "cx": cx, "shape": shape, "tshape": ts, "n": rng.choice([2, 2, 3, 4]), "seed": rng.randrange(10 ** 9)}
+        history = []
+        if c % 2 == 1:
+            for _ in range(rng.randint(1, 3)):
+                history.append({"target": rng.choice(["A", "A", "B", "X"]), "how": rng.choice(["item", "item", "slice", "ellipsis"])})
+        yield {"op": "laws", "kind": kind, "cx": cx, "shape": shape, "tshape": ts, "n": rng.choice([2, 2, 3, 4]), "seed": rng.randrange(10 ** 9),
+               "history": history}
 
 
 def run_laws(inp):
@@ -174,6 +179,30 @@ def run_laws(inp):
     A = O.transformations(g, inp["tshape"], n, kind, cx)
     B = O.transformations(g, inp["tshape"], n, kind, cx)
     bad = []
+    # objects with a history: the laws must hold for a transformation (and an object) that has already been used (inverted, composed,
+    # applied) and then updated in place through the public item assignment, not only for freshly built ones
+    hist = inp.get("history", [])
+    if hist:
+        for T in (A, B):
+            T.inv()
+            T @ T
+        (A @ X)
+        for step in hist:
+            tgt = {"A": A, "B": B, "X": X}[step["target"]]
+            shp = tuple(tgt.shape)
+            if step["target"] == "X":
+                src = O.mk(kind, g, shp, n, cx)
+            else:
+                src = O.transformations(g, shp, n, kind, cx)
+            if shp and step["how"] == "item":
+                k = int(g.integers(0, shp[0]))
+                tgt[k] = type(src)(np.array(src.proj_data[k])) if g.random() < 0.5 else np.array(src.proj_data[k])
+            elif shp and step["how"] == "slice":
+                tgt[:] = src
+            else:
+                tgt[...] = src if g.random() < 0.5 else np.array(src.proj_data)
+            if step["target"] != "X":
+                tgt.inv()          # use it again between updates
     x0 = np.array(X.proj_data)
     a0 = None if X.aux_data is None else np.array(X.aux_data)
 
@@ -200,6 +229,10 @@ def run_laws(inp):
     cmp("inverse", A.inv() @ (A @ X), (x0, a0))
     cmp("inverse2", A @ (A.inv() @ X), (x0, a0))
     Ai = A.inv()
+    AiA = Ai @ A
+    eye = np.broadcast_to(np.identity(n + 1), np.asarray(AiA.matrix).shape)
+    if not O.mats_proj_eq(AiA.matrix, eye, 1e-7) or not O.mats_proj_eq((A @ Ai).matrix, eye, 1e-7):
+        bad.append({"what": "inv:not_inverse", "expected": "A.inv() @ A = identity = A @ A.inv()"})
     if type(Ai) is not type(A) or tuple(Ai.shape) != tuple(A.shape):
         bad.append({"what": "inv:type/shape", "got": [type(Ai).__name__, list(Ai.shape)]})
     # the caller's object is not modified by apply
@@ -216,8 +249,12 @@ def run_laws(inp):
 
 def gen_rep(rng, n):
     for c in range(n):
+        # a small deterministic automaton over the generators and their inverses (no label followed by its inverse is required)
+        nst = rng.randint(1, 3)
+        aut = {str(v): {l: rng.randrange(nst) for l in "abAB" if rng.random() < 0.6} for v in range(nst)}
         yield {"op": "rep", "n": rng.choice([2, 3]), "seed": rng.randrange(10 ** 9), "hyp": c % 2 == 0,
-               "words": ["".join(rng.choice("abAB") for _ in range(rng.randint(0, 7))) for _ in range(3)], "shape": rng.choice(O.SHAPES[:7])}
+               "words": ["".join(rng.choice("abAB") for _ in range(rng.randint(0, 7))) for _ in range(3)], "shape": rng.choice(O.SHAPES[:7]),
+               "automaton": aut, "length": rng.choice([2, 3, 3, 4])}
 
 
 def run_rep(inp):
@@ -256,6 +293,46 @@ def run_rep(inp):
     u, v = inp["words"][0], inp["words"][1]
     if not O.allclose((rep[u] @ rep[v]).matrix, rep[u + v].matrix, 1e-6):
         bad.append({"what": "rep[u]@rep[v] != rep[uv]", "u": u, "v": v})
+    # every other way of obtaining images of words: each returned element must act on points as the matrix of ITS word
+    from geometry_tools.automata import fsa
+
+    def check_elements(what, E, words):
+        E = type(rep["a"])(np.array(E.proj_data)) if hasattr(E, "proj_data") else E
+        if len(words) != (E.shape[0] if E.shape else 1):
+            bad.append({"what": what + ":count", "got": [list(E.shape), len(words)]})
+            return
+        if len(words) == 0:
+            return
+        R = E.apply(pts, "pairwise")
+        for j, w in enumerate(words):
+            want = np.einsum("ij,...j->...i", colmat(w), np.array(pts.proj_data))
+            if not O.rows_proj_eq(R.proj_data[..., j, :], want, 1e-6):
+                bad.append({"what": what, "word": w, "expected": "element returned for a word acts on points as the word's matrix acts on columns"})
+                return
+
+    L = inp.get("length", 3)
+    for maxlen in (True, False):
+        E, ws = rep.freely_reduced_elements(L, maxlen=maxlen, with_words=True)
+        check_elements("freely_reduced_elements(maxlen=%s)" % maxlen, E, list(ws))
+        E2 = rep.freely_reduced_elements(L, maxlen=maxlen)
+        if not O.allclose(E2.proj_data, E.proj_data, 1e-9):
+            bad.append({"what": "freely_reduced_elements: with_words changes the elements"})
+    gd = inp.get("automaton")
+    if gd:
+        aut = fsa.FSA({int(v): {l: int(w) for l, w in d.items()} for v, d in gd.items()}, start_vertices=[0])
+        states = sorted(int(v) for v in gd)
+        opts = [{}] + [{"start_state": q} for q in states] + [{"end_state": q} for q in states]
+        for o in opts:
+            for maxlen in (True, False):
+                try:
+                    E, ws = rep.automaton_accepted(aut, L, maxlen=maxlen, with_words=True, **o)
+                except Exception as e:
+                    bad.append({"what": "automaton_accepted raised", "opts": o, "exc": type(e).__name__, "msg": str(e)[:100]})
+                    continue
+                check_elements("automaton_accepted(%s,maxlen=%s)" % (sorted(o.items()), maxlen), E, list(ws))
+                E2 = rep.automaton_accepted(aut, L, maxlen=maxlen, **o)
+                if np.asarray(E2.proj_data).shape != np.asarray(E.proj_data).shape or not O.allclose(E2.proj_data, E.proj_data, 1e-9):
+                    bad.append({"what": "automaton_accepted: with_words changes the elements", "opts": o})
     # composite of words, pairwise: entry [i][j] is word j applied to point i
     E = rep.elements(inp["words"])
     R = E.apply(pts, "pairwise")
@@ -281,8 +358,11 @@ CLAUSES = [
     Clause("group_laws", "oracle", gen_laws, run_laws, O.judge_bad, site="projective.Transformation.apply/__matmul__/inv",
            budget={"quick": 990, "thorough": 8000},
            what="(A@B)@X = A@(B@X), identity, A.inv()@(A@X) = X = A@(A.inv()@X) as projective objects incl. derived data, type and composite shape preserved, "
-                "argument not mutated, derived data of the image = recomputed; 11 kinds, real and complex, composite shapes, composite transformations"),
+                "argument not mutated, derived data of the image = recomputed, A.inv()@A = identity; 11 kinds, real and complex, composite shapes, composite transformations; "
+                "half of the cases on transformations/objects WITH A HISTORY (already inverted/composed/applied, then updated in place by item, slice or ellipsis assignment)"),
     Clause("rep_action", "oracle", gen_rep, run_rep, O.judge_bad, site="projective.ProjectiveRepresentation / hyperbolic.HyperbolicRepresentation",
            budget={"quick": 300, "thorough": 3000},
-           what="rep[g] = g, rep[w] @ points = (matrix of w)·column for words with inverses, rep[u]@rep[v] = rep[uv], rep.elements(words).apply(points,'pairwise')[i][j] = word j on point i"),
+           what="rep[g] = g, rep[w] @ points = (matrix of w)·column for words with inverses, rep[u]@rep[v] = rep[uv], rep.elements(words).apply(points,'pairwise')[i][j] = word j on point i; "
+                "every (element, word) pair returned by freely_reduced_elements and by automaton_accepted (random automata; default / every start_state / every end_state; "
+                "maxlen on and off; with and without words) acts on points as the word's matrix"),
 ]
